@@ -585,15 +585,84 @@ class Closer(Chain):
     if h is None:
       self.failed.append(n)
       return
-    ht = self.render(h)
-    ts = self.sb(t)
-    sess = OneShot(self.background(ts), ctx.timeout_ms)
-    res = ctx.prove(sess, f"{prefix}/closed:{n}", ts == ht, replay=replay(f"{prefix}.{n}"), desc=desc(n))
-    if res.status == "unsat":
+    ht = self.normal(ctx, f"{prefix}/closed:{n}", t, replay(f"{prefix}.{n}"), desc(n))
+    if ht is not None:
       self.lp[n] = h
       self.add(v, ht)
     else:
       self.failed.append(n)
+
+
+  def normal(self, ctx, name, term, replay, desc):
+    """solver-checked normal form of a term over closed intermediates, built bottom-up: operands first, products folded
+    pairwise, one small query per node (each needs only a few cancellations L * (1/L) = 1).  -> rendered term or None"""
+    ts = self.sb(term)
+    if any("!" in n and not n.startswith("uninit!") for n in consts_of(ts)):
+      return None
+    memo, lmemo = {}, {}
+    ctr = itertools.count()
+
+    def check(a, b):
+      if a.eq(b):
+        return True
+      sess = OneShot(self.facts, ctx.timeout_ms)
+      return ctx.prove(sess, f"{name}#{next(ctr)}", a == b, replay=replay, desc=desc).status == "unsat"
+
+    def go(t):
+      k = t.get_id()
+      if k not in memo:
+        memo[k] = go1(t)
+      return memo[k]
+
+    def go1(t):
+      if t.num_args() == 0:
+        return t
+      h = laurent_of(t, self.lp, self.positive, lmemo)
+      if h is None:
+        return None
+      ht = self.render(h)
+      if t.eq(ht):
+        return ht
+      # whole node at once with a short budget; operand-by-operand only when that is not decided quickly
+      quick = OneShot(self.facts, 1500).prove(f"{name}#{next(ctr)}", t == ht)
+      if quick.status == "unsat":
+        ctx._rec(quick)
+        return ht
+      kids = [go(c) for c in t.children()]
+      if any(c is None for c in kids):
+        return None
+      kind = t.decl().kind()
+      if kind == z3.Z3_OP_MUL and len(kids) > 2:
+        acc = kids[0]
+        for c in kids[1:-1]:
+          step = acc * c
+          hs = laurent_of(step, self.lp, self.positive)
+          nt = self.render(hs)
+          if not check(step, nt):
+            return None
+          acc = nt
+        node = acc * kids[-1]
+      else:
+        node = t.decl()(*kids)
+      return ht if check(node, ht) else None
+
+    return go(ts)
+
+  def prove_sum(self, ctx, name, products, rhs, replay, desc):
+    """sum_j a_j * b_j == rhs, accumulated one product at a time: every partial sum is replaced by its solver-checked normal
+    form, so each query needs only a few cancellations; the last query compares the final normal form with rhs.  Falls back
+    to the direct query when an operand has no closed form."""
+    acc = z3.RealVal(0)
+    direct = 0.0
+    for j, (a, b) in enumerate(products):
+      direct = core.arith("+", direct, core.arith("*", a, b))
+    for j, (a, b) in enumerate(products):
+      t = acc + core.to_z3(a, "real") * core.to_z3(b, "real")
+      acc = self.normal(ctx, f"{name}:partial{j}", t, replay, desc)
+      if acc is None:
+        return self.prove(ctx, name, core.cmp("==", direct, rhs), replay=replay, desc=desc)
+    sess = OneShot(self.facts, ctx.timeout_ms)
+    return ctx.prove(sess, name, acc == self.sb(core.to_z3(rhs, "real")), replay=replay, desc=desc)
 
 
 def rnd_spd_factor(rng, n, lo=0.6, hi=1.4):
